@@ -163,6 +163,7 @@ class IOState(object):
         self.armed = None       # dict(kind=..., at=int) or None
         self.fired = None
         self.opened = 0
+        self.alloc_calls = 0
         self.fallback_used = False
 
 
@@ -323,9 +324,35 @@ class _LoaderNP(object):
                     IO.armed = arm.get("then")  # a second fault may be queued behind the fallback
                     IO.fallback_used = True
                     raise TypeError("injected: genfromtxt(names=True) unsupported (numpy 1.19 behaviour)")
-                return real.genfromtxt(*a, **k)
+                return _k14(real.genfromtxt, True, a, k)
             return genfromtxt
+        if name in _LOADER_ALLOC and callable(getattr(real, name, None)):
+            fn = getattr(real, name)
+            return lambda *a, **k: _k14(fn, False, a, k)
         return getattr(real, name)
+
+
+# array-building NumPy calls a loader may make: K14 lets the `at`-th of them fail with MemoryError (for a parser, either at
+# once or after it has consumed its input, which is when a real allocation failure arrives)
+_LOADER_ALLOC = frozenset(["loadtxt", "array", "asarray", "asanyarray", "ascontiguousarray", "fromstring", "frombuffer", "fromiter",
+                           "empty", "zeros", "full", "atleast_1d", "concatenate", "fromfile"])
+
+
+def _k14(fn, is_parser, a, k):
+    arm = IO.armed
+    if arm and arm["kind"] == "K14":
+        i = IO.alloc_calls
+        IO.alloc_calls += 1
+        if i == arm.get("at", 0):
+            if is_parser and arm.get("when") == "after":
+                try:
+                    fn(*a, **k)
+                except Exception:  # noqa
+                    pass
+            IO.fired = "K14"
+            IO.armed = None
+            raise MemoryError("injected: unable to allocate the array (K14)")
+    return fn(*a, **k)
 
 
 def install_io_seams():
@@ -369,6 +396,7 @@ def io_begin(arm=None):
     IO.armed = arm
     IO.fired = None
     IO.opened = 0
+    IO.alloc_calls = 0
     IO.fallback_used = False
 
 
